@@ -294,10 +294,10 @@ def bondedR (bonds : List RBond) (i j : Nat) : Bool :=
 /-- the stereo the code sets for label `s` -/
 def stereoOfSign (s : Bool) : RdStereo := if s then stereoCis else stereoTrans
 
-/-- cis-trans loop body for one chython bond `(n, k, b)`; `none` = bond untouched.
-`SetStereoAtoms(bgnIdx, endIdx)` has the RDKit precondition "bgnIdx is bonded to the begin atom, endIdx to the end atom". -/
+/-- cis-trans loop body for one chython bond `(n, k, b)`; `none` = bond untouched; otherwise
+`(mapping[n], mapping[k], stereo, (mapping[n1], mapping[m1]), mapping[nm[0]])`. -/
 def toBondStereo (env : StereoEnv) (ids : List Nat) (nkb : Nat × Nat × Bond) :
-    Except BErr (Option (Nat × Nat × RdStereo × (Nat × Nat))) := do
+    Except BErr (Option (Nat × Nat × RdStereo × (Nat × Nat) × Nat)) := do
   let (n, k, b) := nkb
   match b.stereo with
   | none => pure none
@@ -312,15 +312,19 @@ def toBondStereo (env : StereoEnv) (ids : List Nat) (nkb : Nat × Nat × Bond) :
         let j ← idxOf ids k
         let s0 ← idxOf ids e.n0
         let s1 ← idxOf ids e.n1
-        pure (some (i, j, stereoOfSign s, (s0, s1)))
+        let i0 ← idxOf ids c0
+        pure (some (i, j, stereoOfSign s, (s0, s1), i0))
 
-/-- apply `SetStereoAtoms` + `SetStereo` to the bond between `i` and `j` (either direction), checking the precondition -/
-def applyStereo (bonds : List RBond) (i j : Nat) (st : RdStereo) (sa : Nat × Nat) : Except BErr (List RBond) :=
+/-- `rb = GetBondBetweenAtoms(i, j)`; `if rb.GetBeginAtomIdx() != mapping[nm[0]]: n1, m1 = m1, n1` (since repo commit
+a2868f9; before it the pair was passed as is and RDKit raised for reversed bonds, see known_findings/C20.json);
+`SetStereoAtoms(bgnIdx, endIdx)` has the RDKit precondition "bgnIdx is bonded to the begin atom, endIdx to the end atom". -/
+def applyStereo (bonds : List RBond) (i j : Nat) (st : RdStereo) (sa : Nat × Nat) (i0 : Nat) : Except BErr (List RBond) :=
   match bonds.find? (fun b => (b.bgn == i && b.end_ == j) || (b.bgn == j && b.end_ == i)) with
   | none => .error .argument                           -- `GetBondBetweenAtoms` gave `None`; unreachable: the bond was just added
   | some rb =>
-    if bondedR bonds rb.bgn sa.1 && bondedR bonds rb.end_ sa.2 then
-      .ok (bonds.map fun b => if b.bgn == rb.bgn && b.end_ == rb.end_ then { b with stereo := st, satoms := some sa } else b)
+    let sa' := if rb.bgn != i0 then (sa.2, sa.1) else sa
+    if bondedR bonds rb.bgn sa'.1 && bondedR bonds rb.end_ sa'.2 then
+      .ok (bonds.map fun b => if b.bgn == rb.bgn && b.end_ == rb.end_ then { b with stereo := st, satoms := some sa' } else b)
     else .error .runtime
 
 def setBondStereo (env : StereoEnv) (ids : List Nat) :
@@ -329,8 +333,8 @@ def setBondStereo (env : StereoEnv) (ids : List Nat) :
   | nkb :: rest, bonds => do
     match ← toBondStereo env ids nkb with
     | none => setBondStereo env ids rest bonds
-    | some (i, j, st, sa) => do
-      let bonds' ← applyStereo bonds i j st sa
+    | some (i, j, st, sa, i0) => do
+      let bonds' ← applyStereo bonds i j st sa i0
       setBondStereo env ids rest bonds'
 
 /-- `to_rdkit_molecule(data, keep_mapping=keep)` up to (not including) `SanitizeMol` -/
